@@ -109,6 +109,12 @@ def check(pid, tier, seed):
     except ExtractError as e:
         print(f"UNDECIDED property={pid}: {e}")
         write_evidence(pid, tier, seed, cfg, [], [], [], [f"extraction failed: {e}"], time.time() - t0, undecided=[str(e)])
+        if tier == "thorough":
+            _info, sweep_lines, sweep_rc = candidate_sweep(pid, cfg, False)
+            for l in sweep_lines:
+                print(l)
+            if sweep_rc == 1:
+                return 1
         return 2
 
     obligations = []      # ids
@@ -232,6 +238,15 @@ def check(pid, tier, seed):
             out_lines.append(f"VIOLATION property={pid} replay={path}{suffix}")
             d = failed[o][0]
             out_lines.append(f"  obligation {o}: {d.message} (at {getattr(d, 'where', d.obligation)})")
+    # ---- thorough tier: the stored candidate inputs are also run against the real crate.  This decides nothing about
+    # the contracts; but an input on which the real code violates the property's own statement is a violation whatever
+    # the verifier's verdict was (e.g. when a change moved the code out of the verifier's reach: exit 2 above).
+    sweep_info = None
+    if tier == "thorough":
+        sweep_info, sweep_lines, sweep_rc = candidate_sweep(pid, cfg, bool(violations))
+        out_lines += sweep_lines
+        if sweep_rc == 1:
+            rc = 1
     if undecided and rc == 0:
         rc = 2
     for u in undecided:
@@ -244,13 +259,38 @@ def check(pid, tier, seed):
         rc = 2
     wall = time.time() - t0
     write_evidence(pid, tier, seed, cfg, runs, obligations, failed, assumptions, wall, undecided=undecided,
-                   twins=twins_info, known_hit=known_hit, violations=violations, n_obl=n_obl)
+                   twins=twins_info, known_hit=known_hit, violations=violations, n_obl=n_obl, sweep=sweep_info)
     for l in out_lines:
         print(l)
     status = {0: "HOLDS", 1: "VIOLATED", 2: "UNDECIDED"}[rc]
     print(f"{pid}: {status} — {len(discharged)}/{n_obl} obligations discharged by verus/z3 in {wall:.1f}s "
           f"({sum(len(r['res']['functions']) for r in runs)} functions sent to the solver)")
     return rc
+
+
+def candidate_sweep(pid, cfg, already_violated):
+    lines, rc = [], 0
+    try:
+        import witness
+        results = witness.sweep(pid, cfg, REPO)
+    except Exception as e:
+        return {"error": str(e)}, [f"note: candidate inputs could not be replayed: {e}"], 0
+    bad = [r for r in results if r["violated"]]
+    info = {"candidates_replayed": len(results), "violating": len(bad)}
+    if bad and not already_violated:
+        os.makedirs(os.path.join(VERIF, "replay", "out"), exist_ok=True)
+        for k, r in enumerate(bad[:3]):
+            path = os.path.join(VERIF, "replay", "out", f"{pid}-replayed-candidate-{k}.json")
+            with open(path, "w") as f:
+                json.dump({"property": pid, "obligation": f"{pid}.replay:{r['kind']}", "verifier": "none (replay of a stored input on the real crate)",
+                           "verifier_output": "no obligation of the property failed or could be decided; the stored input below "
+                                              "violates the property's statement when run against the real code",
+                           "witness": r}, f, indent=1)
+            lines.append(f"VIOLATION property={pid} replay={path}")
+            lines.append(f"  stored input of kind {r['kind']} violates the property on the real crate: "
+                         + " ".join((r['stdout'] or r['stderr']).strip().split())[-300:])
+        rc = 1
+    return info, lines, rc
 
 
 def write_replay(pid, oid, diags, cfg, runs):
@@ -277,7 +317,7 @@ def write_replay(pid, oid, diags, cfg, runs):
 
 
 def write_evidence(pid, tier, seed, cfg, runs, obligations, failed, assumptions, wall, undecided=None, twins=None,
-                   known_hit=None, violations=None, n_obl=None):
+                   known_hit=None, violations=None, n_obl=None, sweep=None):
     evdir = os.environ.get("VERIF_EVIDENCE_DIR") or os.path.join(VERIF, "evidence")  # (scratch dir when trying seeded changes)
     os.makedirs(evdir, exist_ok=True)
     fns, under_contract, norms, outlined, attrs = [], [], {}, [], []
@@ -328,6 +368,7 @@ def write_evidence(pid, tier, seed, cfg, runs, obligations, failed, assumptions,
             "not_reached": cfg.get("not_reached", []),
             "failed_obligations": sorted(failed.keys()),
             "known_findings_hit": known_hit or [],
+            "stored_inputs_replayed_on_real_crate": sweep if sweep is not None else "not run (thorough tier only)",
             "undecided": undecided or [],
             "vacuity_twins": twins,
             "extraction_drops": "attributes other than std derives/#[default]; visibility qualifiers; `crate::`/`super::` path prefixes; `use` lines; #[cfg(test)] modules (never extracted)",
